@@ -170,7 +170,7 @@ def run_case(ctx, k, rng):
             ctx.ran()
             import io, contextlib
             with contextlib.redirect_stdout(io.StringIO()):
-                Ai = PLA(start=start, stop=stop, num_steps=num, dgms=dgms[:hom] + [bars.astype(np.int64)] + dgms[hom + 1:], hom_deg=hom)
+                Ai = PLA(start=start, stop=stop, num_steps=num, dgms=dgms[:hom] + [vforms.as_int_dtype(rng, bars)[0]] + dgms[hom + 1:], hom_deg=hom)
             vi = depth_rows(Ai.values)
             ctx.check("integer diagram == float diagram of the same values", vi.shape == vals.shape and np.allclose(vi, vals, rtol=0, atol=tol),
                       int_shape=vi.shape, float_shape=vals.shape)
